@@ -136,6 +136,17 @@ func (m *usernameToUserdataMap) RemoveSession(username string) bool {
 	return false
 }
 
+// RemoveAllSessions removes the userdata entry of username whatever the
+// number of logins it still counts.
+func (m *usernameToUserdataMap) RemoveAllSessions(username string) {
+	shard := m.shardFor(username)
+	shard.mu.Lock()
+	defer shard.mu.Unlock()
+
+	delete(shard.sessionCounts, username)
+	delete(shard.Userdata, username)
+}
+
 // defaultDbIndex systemdb should always be in index 0
 const (
 	defaultDbIndex = 0
